@@ -56,7 +56,7 @@ CLAIMED = {
   "technique": "Lean 4 linearizability proof of memory.grow over all interleavings of its lock/read/write steps (step list regenerated from w2c2_base.h) + scheduled real-thread correspondence",
   "text": "The steps of wasmMemoryGrow are regenerated from the header; for ANY number of threads, deltas and interleavings every step list satisfying the decidable lock discipline (which the regenerated list is proved to satisfy) is linearizable: each grow returns the specification's value for some order consistent with real time, final size = initial + sum of successful deltas <= max, old sizes distinct. Real schedules (pthread interposition) are replayed against the model; a TSan run accompanies. grow_shared_never_writes_data and grow_zero_fill_inside_critical_section over the regenerated step list; scheduled observer histories (marker in a freshly grown page) and TSan stress on the data field.",
   "design_ref": "DESIGN.md §5 C18",
-  "note": "memory.size reads pages without the lock: benign data race, OPEN known finding. Trusted: pthread mutex semantics; realloc/calloc; tools/extract/gen_memfuncs.py.",
+  "note": "memory.size read pages without the lock (repaired: fix ee826ee, now wasmMemorySize() under the mutex; the size-query theorems cover it). A run of the real code that does not finish under a schedule is reported as a violation (hang), not a tool error. Trusted: pthread mutex semantics; realloc/calloc; tools/extract/gen_memfuncs.py.",
  },
  "C20": {
   "technique": "Lean 4 theorems over the file-effect model of main()/clean (patterns, formats, call sites regenerated from main.c/c.c) + strace/snapshot correspondence of whole runs",
